@@ -178,6 +178,10 @@ impl<'a> Tr<'a> {
     }
 
     /// `let root := <root with path := new> in rest` (through the alias if root is one)
+    pub fn write_place_force(&mut self, root: &str, path: &[Member], env: &Env, new: &str, rest: &str, at: &Expr) -> R<String> {
+        self.write_place(root, path, env, new, rest, at)
+    }
+
     pub fn write_place(&mut self, root: &str, path: &[Member], env: &Env, new: &str, rest: &str, at: &Expr) -> R<String> {
         let v = env.get(root).cloned().ok_or_else(|| unsupported(at, &format!("assignment to `{}` which is not a local variable", root)))?;
         if !v.mutable && v.alias.is_none() {
@@ -402,6 +406,148 @@ impl<'a> Tr<'a> {
                 }
             }
         }
+        // builtin: `it.next()` on a `str.chars()` / list iterator place: the head, the iterator moves on
+        if let Expr::MethodCall(m) = e {
+            if m.method == "next" && m.args.is_empty() {
+                if let Ok(recv) = self.pure(&m.receiver, env, None) {
+                    if let Ty::Iter(t) = &recv.ty {
+                        let (root, path) = self.target_of(&m.receiver)?;
+                        let r = self.fresh("itr");
+                        let x = self.fresh("nx");
+                        let rest = k(self, Val { s: x.clone(), ty: Ty::Option(t.clone()) })?;
+                        let rest = self.write_place_force(&root, &path, env, &r, &rest, e)?;
+                        return Ok(Some(let_pat(&[r, x], &format!("(Casts.list_next {})", recv.s), &rest)));
+                    }
+                }
+            }
+        }
+        // builtin: `w.next()` on a `slice.windows(3)` place: the first three elements, the iterator moves on by one
+        if let Expr::MethodCall(m) = e {
+            if m.method == "next" && m.args.is_empty() {
+                if let Ok(recv) = self.pure(&m.receiver, env, None) {
+                    if let Ty::Windows(t) = &recv.ty {
+                        let (root, path) = self.target_of(&m.receiver)?;
+                        let r = self.fresh("win");
+                        let x = self.fresh("nx");
+                        let item = Ty::Tuple(vec![(**t).clone(); 3]);
+                        let rest = k(self, Val { s: x.clone(), ty: Ty::Option(Box::new(item)) })?;
+                        let rest = self.write_place(&root, &path, env, &r, &rest, e)?;
+                        return Ok(Some(let_pat(&[r, x], &format!("(Casts.windows3_next {})", recv.s), &rest)));
+                    }
+                }
+            }
+        }
+        // builtin: `<iterator>.fold(init, |acc, item| body)` on a value whose type has a configured `Iterator::next`
+        if let Expr::MethodCall(m) = e {
+            if m.method == "fold" && m.args.len() == 2 && matches!(&m.args[1], Expr::Closure(c) if c.inputs.len() == 2) {
+                let cl = match &m.args[1] {
+                    Expr::Closure(c) => c.clone(),
+                    _ => unreachable!(),
+                };
+                let init_e = m.args[0].clone();
+                // `slice.iter()[.map(|x| f)].fold(init, |acc, x| g)`: a pure List.fold_left
+                {
+                    let mut inner: &Expr = &m.receiver;
+                    let mut mapc: Option<&ExprClosure> = None;
+                    if let Expr::MethodCall(mm) = inner {
+                        if mm.method == "map" && mm.args.len() == 1 {
+                            if let Expr::Closure(c) = &mm.args[0] {
+                                if c.inputs.len() == 1 {
+                                    mapc = Some(c);
+                                    inner = &mm.receiver;
+                                }
+                            }
+                        }
+                    }
+                    if let Expr::MethodCall(it) = inner {
+                        if it.method == "iter" && it.args.is_empty() {
+                            if let Ok(sv) = self.pure(&it.receiver, env, None) {
+                                if let Ty::Slice(et) = &sv.ty {
+                                    let et = (**et).clone();
+                                    let init = self.pure(&init_e, env, None)?;
+                                    let mut lets = String::new();
+                                    let item: Val = match mapc {
+                                        Some(c) => {
+                                            let mut envm = env.clone();
+                                            let pm = self.bind_pat(&c.inputs[0], &et, &mut envm)?;
+                                            lets.push_str(&format!("let '{} := x_ in ", pm));
+                                            self.pure(&c.body, &envm, None)?
+                                        }
+                                        None => Val { s: "x_".into(), ty: et.clone() },
+                                    };
+                                    let mut envf = env.clone();
+                                    let pa = self.bind_pat(&cl.inputs[0], &init.ty, &mut envf)?;
+                                    let pi = self.bind_pat(&cl.inputs[1], &item.ty, &mut envf)?;
+                                    let body = self.pure(&cl.body, &envf, Some(&init.ty))?;
+                                    let acc_ty = join(&init.ty, &body.ty).map_err(|m| unsupported(e, &m))?;
+                                    let v = Val { s: format!("(fold_left (fun acc_ x_ => {}let '{} := {} in let '{} := acc_ in {}) {} {})", lets, pi, item.s, pa, body.s, sv.s, init.s), ty: acc_ty };
+                                    return k(self, v).map(Some);
+                                }
+                            }
+                        }
+                    }
+                }
+                let s = self.expr_k(&m.receiver, env, None, &|tr, recv| {
+                    if let Ty::Slice(et) = &recv.ty {
+                        // a list of items: List.fold_left
+                        let et = (**et).clone();
+                        let init = tr.pure(&init_e, env, None)?;
+                        let mut envf = env.clone();
+                        let pa = tr.bind_pat(&cl.inputs[0], &init.ty, &mut envf)?;
+                        let pi = tr.bind_pat(&cl.inputs[1], &et, &mut envf)?;
+                        let body = tr.pure(&cl.body, &envf, Some(&init.ty))?;
+                        let acc_ty = join(&init.ty, &body.ty).map_err(|m| unsupported(e, &m))?;
+                        return k(tr, Val { s: format!("(fold_left (fun (acc_ : {}) (x_ : {}) => let '{} := x_ in let '{} := acc_ in {}) {} {})", tr.t.coq_ty(&acc_ty)?, tr.t.coq_ty(&et)?, pi, pa, body.s, recv.s, init.s), ty: acc_ty });
+                    }
+                    let n = match &recv.ty {
+                        Ty::Adt(n) => n.clone(),
+                        t => return Err(unsupported(e, &format!("`fold` on a value of type {} (only a type with a configured `Iterator::next`)", t.show()))),
+                    };
+                    let nf: Vec<FnInfo> = tr.find_fns(Some(&n), "next").into_iter().filter(|f| f.self_kind == SelfKind::Mut && f.params.is_empty() && !f.has_mut_params()).collect();
+                    if nf.len() != 1 {
+                        return Err(unsupported(e, &format!("`fold` on `{}`, which has no configured `Iterator::next`", n)));
+                    }
+                    let f = nf[0].clone();
+                    let item = match &f.ret {
+                        Ty::Option(t) => (**t).clone(),
+                        _ => return Err(unsupported(e, "`fold` on a type whose `next` does not return Option")),
+                    };
+                    if !tr.fuel {
+                        tr.needs_fuel = true;
+                        return Err(unsupported(e, "`fold` over an iterator (retry with fuel)"));
+                    }
+                    let init = tr.pure(&init_e, env, None)?;
+                    // the closure: a pure function of (accumulator, item)
+                    let mut env2 = env.clone();
+                    let pa = tr.bind_pat(&cl.inputs[0], &init.ty, &mut env2)?;
+                    let pi = tr.bind_pat(&cl.inputs[1], &item, &mut env2)?;
+                    let body = tr.pure(&cl.body, &env2, Some(&init.ty))?;
+                    let acc_ty = join(&init.ty, &body.ty).map_err(|m| unsupported(e, &m))?;
+                    tr.loop_counter += 1;
+                    let id = format!("{}_fold{}", tr.fn_coq, tr.loop_counter);
+                    let st = tr.t.coq_ty(&recv.ty)?;
+                    let it = tr.t.coq_ty(&item)?;
+                    let at = tr.t.coq_ty(&acc_ty)?;
+                    let (fn_binder, fn_arg, call_next) = if f.fuel {
+                        let outer = match tr.t.fuel_consts.get(&f.key) {
+                            Some(c) => c.clone(),
+                            None => tr.fuel_var.clone(),
+                        };
+                        (" (fn_ : nat)".to_string(), format!(" {}", outer), format!("match {} fn_ it_ with\n| None => None\n| Some (_, None) => Some acc_\n| Some (it1_, Some v_) => {} fuel_ fn_ step_ it1_ (step_ acc_ v_)\nend", f.coq, id))
+                    } else {
+                        (String::new(), String::new(), format!("match {} it_ with\n| (_, None) => Some acc_\n| (it1_, Some v_) => {} fuel_ step_ it1_ (step_ acc_ v_)\nend", f.coq, id))
+                    };
+                    tr.aux_defs.push(format!(
+                        "Fixpoint {id} (fuel0_ : nat){fb} (step_ : {at} -> {it} -> {at}) (it_ : {st}) (acc_ : {at}) {{struct fuel0_}} : option {at} :=\nmatch fuel0_ with\n| O => None\n| Datatypes.S fuel_ =>\n{step}\nend.",
+                        id = id, fb = fn_binder, at = at, it = it, st = st, step = call_next
+                    ));
+                    let r = tr.fresh("fld");
+                    let rest = k(tr, Val { s: r.clone(), ty: acc_ty })?;
+                    Ok(format!("match {} {}{} (fun acc_ item_ => let '{} := acc_ in let '{} := item_ in {}) {} {} with\n| Some {} =>\n{}\n| None => None\nend", id, tr.fuel_var, fn_arg, pa, pi, body.s, recv.s, init.s, r, rest))
+                })?;
+                return Ok(Some(s));
+            }
+        }
         // builtin: `it.last()` on a value whose type has a configured `Iterator::next`: a driver over fuel
         if let Expr::MethodCall(m) = e {
             if m.method == "last" && m.args.is_empty() {
@@ -446,6 +592,41 @@ impl<'a> Tr<'a> {
                 }
             }
         }
+        // a `&mut self` method of a generic type parameter (`assoc <name> fnmut(..)`): a function parameter of the
+        // translated definition that returns the new receiver next to the result
+        if let Expr::MethodCall(m) = e {
+            let name = m.method.to_string();
+            if self.t.assoc_mut.contains(&name) {
+                if let Ok(recv) = self.pure(&m.receiver, env, None) {
+                    if let Ty::Param(g) = &recv.ty {
+                        let key = format!("{}::{}", g, name);
+                        if let Some(v) = env.get(&key).cloned() {
+                            if let Ty::Fn(ptys, rty) = &v.ty {
+                                if ptys.len() != m.args.len() + 1 {
+                                    return Err(unsupported(e, &format!("call of `{}` with {} arguments", key, m.args.len())));
+                                }
+                                let ret = match &**rty {
+                                    Ty::Tuple(ts) if ts.len() == 2 => ts[1].clone(),
+                                    _ => return Err(unsupported(e, "fnmut assoc type")),
+                                };
+                                let (root, path) = self.target_of(&m.receiver)?;
+                                let mut a = vec![recv.s.clone()];
+                                for (x, pt) in m.args.iter().zip(ptys.iter().skip(1)) {
+                                    let av = self.pure(x, env, Some(pt))?;
+                                    join(&av.ty, pt).map_err(|mm| unsupported(e, &mm))?;
+                                    a.push(av.s);
+                                }
+                                let st = self.fresh("it");
+                                let x = self.fresh("nx");
+                                let rest = k(self, Val { s: x.clone(), ty: ret })?;
+                                let rest = self.write_place(&root, &path, env, &st, &rest, e)?;
+                                return Ok(Some(let_pat(&[st, x], &app(&v.coq, &a), &rest)));
+                            }
+                        }
+                    }
+                }
+            }
+        }
         let (f, recv) = match self.resolve_effectful(e, env)? {
             Some(x) => x,
             None => return Ok(None),
@@ -484,7 +665,12 @@ impl<'a> Tr<'a> {
                 (Some(r), Some(re)) => {
                     a.push(r.s.clone());
                     if f.self_kind == SelfKind::Mut {
-                        writebacks.push(self.target_of(re)?);
+                        if matches!(crate::expr::strip_parens(re), Expr::Call(_) | Expr::MethodCall(_) | Expr::Struct(_)) {
+                            // a `&mut self` method on a temporary: the updated temporary is dropped
+                            writebacks.push(("@@TEMP@@".to_string(), vec![]));
+                        } else {
+                            writebacks.push(self.target_of(re)?);
+                        }
                     }
                 }
                 _ => {
@@ -513,6 +699,7 @@ impl<'a> Tr<'a> {
                 writebacks.push(tgt);
             } else {
                 let v = self.pure(x, env, Some(pt))?;
+                let v = crate::calls::coerce_array_to_slice(v, pt);
                 join(&v.ty, pt).map_err(|m| unsupported(e, &format!("argument of `{}`: {}", f.key, m)))?;
                 a.push(v.s);
             }
@@ -532,6 +719,9 @@ impl<'a> Tr<'a> {
         }
         let mut rest = k(self, ret_val)?;
         for ((root, path), tmp) in writebacks.iter().zip(temps.iter()).rev() {
+            if root == "@@TEMP@@" {
+                continue;
+            }
             rest = self.write_place(root, path, env, tmp, &rest, e)?;
         }
         if f.fuel {
@@ -543,6 +733,48 @@ impl<'a> Tr<'a> {
         } else {
             Ok(Some(let_pat(&temps, &call, &rest)))
         }
+    }
+
+    /// an iterator value (a type with a configured `Iterator::next`) as the list of the items it yields: a driver over fuel
+    pub fn collect_iter(&mut self, recv: &Val, at: &Expr) -> R<(String, Ty)> {
+        let n = match &recv.ty {
+            Ty::Adt(n) => n.clone(),
+            t => return Err(unsupported(at, &format!("a value of type {} used as an iterator", t.show()))),
+        };
+        let nf: Vec<FnInfo> = self.find_fns(Some(&n), "next").into_iter().filter(|f| f.self_kind == SelfKind::Mut && f.params.is_empty() && !f.has_mut_params()).collect();
+        if nf.len() != 1 {
+            return Err(unsupported(at, &format!("`{}` has no configured `Iterator::next`", n)));
+        }
+        let f = nf[0].clone();
+        let item = match &f.ret {
+            Ty::Option(t) => (**t).clone(),
+            _ => return Err(unsupported(at, "an iterator whose `next` does not return Option")),
+        };
+        if !f.assoc_params.is_empty() {
+            return Err(unsupported(at, "collecting an iterator whose `next` abstracts generic items"));
+        }
+        if !self.fuel {
+            self.needs_fuel = true;
+            return Err(unsupported(at, "an iterator used as a list (retry with fuel)"));
+        }
+        self.loop_counter += 1;
+        let id = format!("{}_collect{}", self.fn_coq, self.loop_counter);
+        let st = self.t.coq_ty(&recv.ty)?;
+        let it = self.t.coq_ty(&item)?;
+        let (fb, fa, step) = if f.fuel {
+            let outer = match self.t.fuel_consts.get(&f.key) {
+                Some(c) => c.clone(),
+                None => self.fuel_var.clone(),
+            };
+            (" (fn_ : nat)".to_string(), format!(" {}", outer), format!("match {} fn_ it_ with\n| None => None\n| Some (_, None) => Some []\n| Some (it1_, Some v_) => option_map (cons v_) ({} fuel_ fn_ it1_)\nend", f.coq, id))
+        } else {
+            (String::new(), String::new(), format!("match {} it_ with\n| (_, None) => Some []\n| (it1_, Some v_) => option_map (cons v_) ({} fuel_ it1_)\nend", f.coq, id))
+        };
+        self.aux_defs.push(format!(
+            "Fixpoint {id} (fuel0_ : nat){fb} (it_ : {st}) {{struct fuel0_}} : option (list {it}) :=\nmatch fuel0_ with\n| O => None\n| Datatypes.S fuel_ =>\n{step}\nend.",
+            id = id, fb = fb, st = st, it = it, step = step
+        ));
+        Ok((format!("({} {}{} {})", id, self.fuel_var, fa, recv.s), Ty::Slice(Box::new(item))))
     }
 
     /// `loop { body }` / `while cond { body }`: a local fix over fuel; the variables assigned in the body are its arguments
